@@ -530,3 +530,20 @@ pub fn h_c05_readers_of_spills() {
     }
     reach("C05.spill_readers");
 }
+
+// ---- C08 through the evaluator: arithmetic on any two finite numbers never leaves a non-finite number in a cell
+const C08_FORMULAS: [&str; 6] = ["=A1+B1", "=A1-B1", "=A1*B1", "=-A1", "=SUM(A1:B1)", "=A1*B1+A1"];
+pub fn h_c08_arithmetic_results_are_finite() {
+    let (x, y) = (any_f64_finite(), any_f64_finite());
+    let f = any_usize_to(C08_FORMULAS.len() - 1);
+    let entered = model_with(0, x, false, 0, y, false, C08_FORMULAS[f]);
+    check("C08.arithmetic.entered", entered.is_some());
+    let model = match entered { Some(m) => m, None => return };
+    let ok = match model.get_cell_value_by_index(0, 1, 3) {
+        Ok(CellValue::Number(v)) => v.is_finite(),
+        Ok(CellValue::String(t)) => t == "#NUM!",
+        _ => false,
+    };
+    check("C08.arithmetic.finite_number_or_num_error", ok);
+    reach("C08.arithmetic");
+}
